@@ -20,9 +20,14 @@
      cont = true without error — so nothing is executed or written after the first request that
      reports stop; the inputs are the prefix of initial :: trimmed lines; when the last request
      went on, the whole input was consumed; the returned error is the one of the last request
-     (nil on stop and on EOF); Finish was called exactly once. *)
+     (nil on stop and on EOF); Finish was called exactly once;
+   * loop_c02_ok (C02, navigable): every input passed to Exec is the line typed without the white space
+     around it (CR LF endings, blanks, tabs), and on the sessions observed after each request pages are
+     walked one step at a time (EngineMon.c02e_steps);
+   * loop_c12_ok (C12, stored content): in the persister modes (memory / filesystem store, plain /
+     WithFlush) the record found in the store after Loop is the session observed after the last request. *)
 From Vise Require Import Bytes Errors Consts EngConsts Codec CacheModel StateModel NavModel RenderModel VmModel EngineModel
-  LoopModel CorrBase EngineCorr.
+  LoopModel CorrBase EngineCorr EngineMon.
 Local Open Scope N_scope.
 
 Inductive olstat : Type := OLOk | OLErr (e : err) | OLTerm | OLPanic.
@@ -31,7 +36,8 @@ Record lobs := mkLobs {
   lo_input : bytes;
   lo_cont : bool;
   lo_exec : ostat;
-  lo_flush : option (bytes * N * ostat)     (* None: Flush was not called; bytes written by it, its l, its error *)
+  lo_flush : option (bytes * N * ostat);    (* None: Flush was not called; bytes written by it, its l, its error *)
+  lo_snap : option osnap                    (* the session after the request (after Flush, or after a failed Exec); None: not observable *)
 }.
 
 Record lcase := mkLcase {
@@ -44,7 +50,9 @@ Record lcase := mkLcase {
   lc_calls : list lobs;
   lc_finishes : N;
   lc_stray : N;                  (* Flush calls not following an Exec / on another writer *)
-  lc_snap : option osnap         (* the session after Loop; None after a panic *)
+  lc_snap : option osnap;        (* the session after Loop; None after a panic and in the persister modes *)
+  lc_mode : N;                   (* 0 WithState/WithMemory; 1 mem persister; 2 mem persister WithFlush; 3 fs persister; 4 fs persister WithFlush *)
+  lc_stored : option (option osnap)  (* persister modes: the record found in the store after Loop (Some None: no record) *)
 }.
 
 Definition olstat_of (s : lstat) : olstat :=
@@ -78,9 +86,35 @@ Fixpoint calls_match (inputs : list bytes) (rs : list response) (os : list lobs)
   | _, _ => false
   end.
 
+(* the engine Loop is given: the long-lived harness engine, or a new engine over a persister whose
+   store has no record yet *)
+Definition loop_init (lc : lcase) : engine :=
+  if lc_mode lc =? 0 then long_init (lc_cfg lc) else loop_persisted_init (lc_cfg lc).
 Definition model_requests (lc : lcase) : list response :=
-  loop_prefix true (long_resps efuel (app_rsrc (lc_app lc)) (lc_cfg lc) (long_init (lc_cfg lc))
+  loop_prefix true (long_resps efuel (app_rsrc (lc_app lc)) (lc_cfg lc) (loop_init lc)
                                (loop_inputs (lc_initial lc) (lc_reader lc))).
+
+(* the session after every request Loop makes (after Flush; after Exec when it failed) *)
+Fixpoint loop_snaps (first : bool) (fuel : nat) (rs : rsrc) (c : config) (e : engine) (inputs : list bytes) : list snapshot :=
+  match inputs with
+  | [] => []
+  | i :: rest =>
+    let '(e1, cont, s) := eng_exec fuel rs c e i in
+    match s with
+    | SOk =>
+      let '(e2, _, f) := eng_flush fuel rs c e1 in
+      snap_of (v_st (e_v e2)) (v_ca (e_v e2))
+      :: (if cont && match f with FOk => true | FErr er => first && err_eqb er EFlushNoExec | _ => false end
+          then loop_snaps false fuel rs c e2 rest else [])
+    | _ => [snap_of (v_st (e_v e1)) (v_ca (e_v e1))]
+    end
+  end.
+Fixpoint snaps_match (ms : list snapshot) (os : list lobs) : bool :=
+  match ms, os with
+  | m :: ms', o :: os' =>
+    match lo_snap o with Some x => osnap_eqb (osnap_of m) x | None => true end && snaps_match ms' os'
+  | _, _ => true
+  end.
 
 (* Taint (an error whose message text is not modelled became the page's error prefix) excuses only
    what is RENDERED afterwards.  When the taint arises in the very request whose Exec fails, Loop
@@ -94,14 +128,14 @@ Definition loop_excused (lc : lcase) (st : lstat) (e : engine) : bool :=
     v_taint (e_v e)
     && (let reqs := model_requests lc in
         let n := List.length reqs in
-        let e_pre := eng_after efuel (app_rsrc (lc_app lc)) (lc_cfg lc) (long_init (lc_cfg lc))
+        let e_pre := eng_after efuel (app_rsrc (lc_app lc)) (lc_cfg lc) (loop_init lc)
                                (firstn (n - 1) (loop_inputs (lc_initial lc) (lc_reader lc))) in
         v_taint (e_v e_pre) || negb (exec_failed (last reqs (mkResp true SOk [] FOk))))
   end.
 
 Definition loop_corr_ok (lc : lcase) : bool :=
   let rs := app_rsrc (lc_app lc) in
-  let '(w, st, e) := eng_loop rs (lc_cfg lc) efuel (long_init (lc_cfg lc)) (lc_initial lc) (lc_reader lc) in
+  let '(w, st, e) := eng_loop rs (lc_cfg lc) efuel (loop_init lc) (lc_initial lc) (lc_reader lc) in
   if loop_excused lc st e then true else
   bytes_eqb w (lc_written lc)
   && olstat_eqb (olstat_of st) (lc_stat lc)
@@ -109,16 +143,22 @@ Definition loop_corr_ok (lc : lcase) : bool :=
      | Some os => osnap_eqb (osnap_of (snap_of (v_st (e_v e)) (v_ca (e_v e)))) os
      | None => true
      end
-  && calls_match (loop_inputs (lc_initial lc) (lc_reader lc)) (model_requests lc) (lc_calls lc).
+  && calls_match (loop_inputs (lc_initial lc) (lc_reader lc)) (model_requests lc) (lc_calls lc)
+  && snaps_match (loop_snaps true efuel rs (lc_cfg lc) (loop_init lc) (loop_inputs (lc_initial lc) (lc_reader lc))) (lc_calls lc)
+  (* the record in the store: the session after the last request, saved by the ONE Finish *)
+  && match lc_stored lc, st with
+     | None, _ | _, LPanic _ => true
+     | Some o, _ => option_eqb osnap_eqb (option_map osnap_of (loop_stored (lc_cfg lc) (w, st, e))) o
+     end.
 Definition loop_excused_count (cs : list lcase) : N :=
-  len (filter (fun lc => let '(w, st, e) := eng_loop (app_rsrc (lc_app lc)) (lc_cfg lc) efuel (long_init (lc_cfg lc)) (lc_initial lc) (lc_reader lc) in
+  len (filter (fun lc => let '(w, st, e) := eng_loop (app_rsrc (lc_app lc)) (lc_cfg lc) efuel (loop_init lc) (lc_initial lc) (lc_reader lc) in
                          loop_excused lc st e) cs).
 Definition loop_mismatches (cs : list lcase) : list N := bad_indices loop_corr_ok cs.
 
 (* debugging aid: what the model predicts *)
 Definition loop_model (lc : lcase) : bytes * olstat * list (bytes * response) :=
   let rs := app_rsrc (lc_app lc) in
-  let '(w, st, e) := eng_loop rs (lc_cfg lc) efuel (long_init (lc_cfg lc)) (lc_initial lc) (lc_reader lc) in
+  let '(w, st, e) := eng_loop rs (lc_cfg lc) efuel (loop_init lc) (lc_initial lc) (lc_reader lc) in
   (w, olstat_of st, combine (loop_inputs (lc_initial lc) (lc_reader lc)) (model_requests lc)).
 
 (* ---- monitors on the observation ----------------------------------------------------------------- *)
@@ -197,9 +237,52 @@ Definition loop_c20_ok (lc : lcase) : bool :=
       end)
   && (lc_finishes lc =? 1) && (lc_stray lc =? 0).
 
+(* C12 (stored content): over a persister, the record in the store after Loop is the session as it
+   was observed after the last request Loop made — whatever the exit (stop, EOF, error), plain or
+   WithFlush.  Not judged after a panic, nor when the last request's session was not observable, nor
+   with an entry function configured (K-C20-first / K-C17-first: a request stopped by the entry
+   function is not saved — the engine is not initialised and Finish does nothing; the model agrees) *)
+Definition loop_c12_ok (lc : lcase) : bool :=
+  match lc_stored lc with
+  | None => true
+  | Some o =>
+    match c_first (lc_cfg lc) with Some _ => lc_finishes lc =? 1 | None =>
+    (lc_finishes lc =? 1)
+    && match lc_stat lc, rev (lc_calls lc) with
+       | OLPanic, _ => true
+       | _, last_call :: _ =>
+         match lo_snap last_call with
+         | Some x => match o with Some y => osnap_eqb x y | None => false end
+         | None => true
+         end
+       | _, [] => false
+       end
+    end
+  end.
+
+(* C02 (navigable): what the client typed on a line, without the white space around it, is what the
+   engine is asked — so an offered browse selector typed on a CR LF terminated or blank-padded line
+   reaches INCMP > / INCMP < as offered — and, on the sessions observed after each request, pages are
+   walked from index 0 one step at a time (EngineMon.c02e_steps, with the ghost moves of the model) *)
+Definition lobs_step (o : lobs) : bytes * eobs :=
+  (lo_input o,
+   mkEobs (lo_cont o) (lo_exec o)
+          (match lo_flush o with Some (out, _, _) => out | None => [] end)
+          (match lo_flush o with Some (_, _, f) => f | None => OSOk end)
+          (lo_snap o) []).
+Definition loop_events (lc : lcase) : list (list ev) :=
+  map (fun t => snd (fst t))
+      (model_trace_long (app_rsrc (lc_app lc)) (lc_cfg lc) (loop_init lc) (map lo_input (lc_calls lc))).
+Definition loop_c02_ok (lc : lcase) : bool :=
+  let calls := lc_calls lc in
+  list_eqb bytes_eqb (map lo_input calls) (firstn (List.length calls) (loop_inputs (lc_initial lc) (lc_reader lc)))
+  && c02e_steps None (map lobs_step calls) (loop_events lc).
+
+Definition loop_violations_c02 (cs : list lcase) : list (N * N) := map (fun i => (i, 0)) (bad_indices loop_c02_ok cs).
+Definition loop_violations_c12 (cs : list lcase) : list (N * N) := map (fun i => (i, 0)) (bad_indices loop_c12_ok cs).
 Definition loop_violations_c01 (cs : list lcase) : list (N * N) := map (fun i => (i, 0)) (bad_indices loop_c01_ok cs).
 Definition loop_violations_c20 (cs : list lcase) : list (N * N) := map (fun i => (i, 0)) (bad_indices loop_c20_ok cs).
-Definition loop_ok (lc : lcase) : bool := loop_c01_ok lc && loop_c20_ok lc.
+Definition loop_ok (lc : lcase) : bool := loop_c01_ok lc && loop_c20_ok lc && loop_c02_ok lc && loop_c12_ok lc.
 Definition loop_violations (cs : list lcase) : list (N * N) := map (fun i => (i, 0)) (bad_indices loop_ok cs).
 
 (* debugging aid *)
